@@ -48,6 +48,14 @@ def run(ctx):
     ctx.rule("C05.R11", "the capture analysis finds every name the function body reads: same positions as the evaluator's reads, every expression child visited, binder arms work on a copy of the bound set (a parameter of an inner function must not hide a later free occurrence of the same name: it would stay a bare, unbound name in the emitted source)", floor=8)
     c04.free_variable_rule(ctx, "C05.R11", core)
     c04.capture_by_name(ctx, "C05.R11", core)
+    # the emitted source carries no name for the function and writes calls of function literals in full: it reloads to the same function
+    # only if every call, whatever the callee looks like, goes through the one calling convention and parameters win over the self name
+    ctx.rule("C05.R13", "one calling convention: a function body is evaluated only by FunctionDef::call (no in-place evaluation of an immediately-invoked function literal that skips the arity check and the flattening of spread arguments), and in the call frame parameters are bound after the function's own name and `inputs`", floor=2)
+    from rules import c18 as c18_
+    from lib import mir as M_
+    names_ = c18_.who_evaluates_bodies(M_.CallGraph([core, ctx.cli, ctx.wasm]))
+    ctx.inst("C05.R13", "who-evaluates-a-function-body", names_ == [c18_.FCALL], "functions handing a function body to evaluate_ast: %s" % names_, None)
+    c04.parameters_last(ctx, "C05.R13", core)
     # R12: a captured negative number is written as prefix minus applied to a literal
     ctx.rule("C05.R12", "the emitter writes a negative number (captured or literal) as a bare `-2`, which the grammar reads as prefix minus applied to 2: that is the same number in every operand position only while prefix operators bind tighter than every infix operator, i.e. build_pratt_parser registers the prefix group after all infix groups", floor=1)
     from rules import c10
